@@ -23,7 +23,7 @@ ALL_DEVS = ["FirstFromOnly"]
 CFG = """SPECIFICATION %(spec)s
 CONSTANTS
   Devs = {%(devs)s}
-  Families = {"A", "B"}
+  Families = {"A", "B", "C"}
   Gen = %(gen)s
 %(tail)s
 """
@@ -35,7 +35,14 @@ def cfg(spec="Spec", devs=(), gen=False, tail=""):
 
 def stratum(r):
     f = r["from"]
-    return (r["tbl"], r["norm"], r["auth"]["a"], f["layout"], f["style"] if f["layout"] == "one" else "")
+    if r["fam"] == "C":
+        return ("C", r["tbl"], r["auth"]["a"], r["sasl"]["mech"], r["sasl"]["az"], r["nb"], r["chk"], r["mf"]["a"])
+    return (r["fam"], r["tbl"], r["norm"], r["auth"]["a"], f["layout"], f["style"] if f["layout"] == "one" else "")
+
+
+def directable(r):
+    """rows the check module alone can be asked: no SASL exchange, no neighbour check"""
+    return r["sasl"] == {"mech": "PLAIN", "az": "empty"} and r["nb"] == "absent"
 
 
 def stratified(rng, rows, n):
@@ -71,7 +78,8 @@ def nontrivial(r):
     f = r["from"]
     xs = [r["mf"]["a"]] + ([f["x"]["a"]] if f["x"]["a"] != "-" else []) + ([f["y"]["a"]] if f["y"]["a"] != "-" else [])
     return r["auth"]["a"] == "none" or any(x != own for x in xs) or r["sender"]["a"] != "-" or \
-        any(it["v"] != "plain" for it in (r["auth"], r["mf"], f["x"]))
+        any(it["v"] != "plain" for it in (r["auth"], r["mf"], f["x"])) or not r["chk"] or \
+        r["sasl"]["az"] != "empty" or r["nb"] not in ("absent", "none")
 
 
 def run(ctx, replay):
@@ -121,13 +129,18 @@ def run(ctx, replay):
         # header rules are reached; the other half spreads over the other envelope senders
         def own_mf(x):
             return x["mf"]["a"] == ("peer" if x["auth"]["a"] == "V" else "self")
-        rows_own = [x for x in rows if own_mf(x)]
-        rows_oth = [x for x in rows if not own_mf(x)]
+        rows_ab = [x for x in rows if x["fam"] != "C"]
+        rows_c = [x for x in rows if x["fam"] == "C"]
+        rows_own = [x for x in rows_ab if own_mf(x)]
+        rows_oth = [x for x in rows_ab if not own_mf(x)]
 
         def sample(n):
             return stratified(ctx.rng, rows_own, n // 2) + stratified(ctx.rng, rows_oth, n - n // 2)
-        direct = rows if thorough else sample(9000)
-        e2e = rows if thorough else sample(1500)
+        # family C (session around the check): one row of every (table, user, mechanism, authzid, neighbour,
+        # check_header, envelope sender) combination at least
+        c_direct = [x for x in rows_c if directable(x)]
+        direct = [x for x in rows if directable(x)] if thorough else sample(8000) + stratified(ctx.rng, c_direct, 1500)
+        e2e = rows if thorough else sample(1200) + stratified(ctx.rng, rows_c, 3000)
         items = [{"via": "direct", "in": x} for x in direct] + [{"via": "endpoint", "in": x} for x in e2e]
         for i, it in enumerate(items):
             it["id"] = i + 1
@@ -235,7 +248,8 @@ def run(ctx, replay):
     ctx.cov["distinct_nontrivial"] = len({json.dumps(i["in"], sort_keys=True) for i in items if nontrivial(i["in"])})
     ctx.cov["rule"] = ("rows = the complete input space of Authz.tla printed by TLC (family A: 6 table kinds x user x 7 MAIL FROM "
                        "mailboxes x 108 From layouts/styles x 4 Sender; family B: spelling variants x all 7 "
-                       "normalisation settings); thorough runs every row on the check and through the endpoint, "
+                       "normalisation settings; family C: null/postmaster envelope senders x check_header x SASL mechanism/authzid x "
+                       "neighbour check); thorough runs every row through the endpoint and the SASL/neighbour-free ones on the check, "
                        "quick a stratified seeded sample of both; non-trivial = unauthenticated, or some address other "
                        "than the user's own, or a Sender, or a non-canonical spelling")
     ctx.cov["open_deviations"] = open_devs
@@ -249,8 +263,10 @@ def run(ctx, replay):
         "the harness only renders identifiers to strings",
         "From/Sender header sections are rendered by the harness from the abstract layout (RFC 5322 syntax: "
         "angle-addr, display names, encoded words, comments, folding, groups, repeated fields)",
-        "fail actions of the check are the defaults (reject); check_header yes",
-        "endpoint rows: credentials in auth.pass_table (bcrypt cost 4), auth_map_normalize auto, PLAIN",
+        "fail actions of the check are the defaults (reject); with check_header no only the envelope clause is demanded",
+        "the authenticated user of a row is the account whose password the client presented (SASL authentication identity)",
+        "neighbour check = harness/scripted check.verif_scripted in the same check block, failing at sender and body stage",
+        "endpoint rows: credentials in auth.pass_table (bcrypt cost 4, one password per account), auth_map_normalize auto, real PLAIN/LOGIN exchanges",
         "TLC, CommunityModules Json reader, go1.26 toolchain",
     ]
 
@@ -261,10 +277,12 @@ META = {
     "technique": "TLA+ decision-table spec Authz.tla: TLC enumerates the input space and checks the documented rule against "
                  "the declarative property on every row; the rows drive the real check.authorize_sender and the real "
                  "submission endpoint; AuthzTrace.tla evaluates the property on what the code answered",
-    "text": "TLC enumerates all 96,420 rows (entitlement tables identity/list/domain wildcard/'*'/absent/prepare_email, "
+    "text": "TLC enumerates all 124,080 rows (entitlement tables identity/list/domain wildcard/'*'/absent/prepare_email, "
             "all 7 normalisation settings, user spellings, MAIL FROM, From layouts incl. several fields, groups, display-name "
-            "and encoded-word tricks, Sender) and checks Rule against Prop on each; thorough runs every row on the real "
-            "check and through the real endpoint, quick a stratified seeded sample (9000 + 1500); TLC evaluates "
+            "and encoded-word tricks, Sender; null and postmaster envelope senders, check_header yes/no, SASL mechanism and "
+            "authorization identity, a quarantining/rejecting neighbour check) and checks Rule against Prop on each; thorough "
+            "runs every row through the real endpoint and every row without SASL/neighbour dimension on the check alone, "
+            "quick a stratified seeded sample (9500 + 4200); TLC evaluates "
             "Prop/Rule on the recorded decisions.",
     "note": "One-sided (safety) property: an over-strict refusal is drift, not a violation. Header sections are rendered by "
             "the harness; the spelling equivalence of addresses is an assumption of the model.",
